@@ -162,6 +162,10 @@ def c12(res, tier, seed):
     qs.append(Query("segment: for non-parallel segments with common point a.s+ua*da = b.s+ub*db: code == (ua,ub in [0,1])",
                     pcl + [nonpar] + sol + [xor(code_l, inunit)], timeout=120, meta=dict(fn="Line2::intersects"),
                     witness=[nonpar] + sol + [inunit]))
+    box_ = [T.fcmp("fle", -100.0, v_) for v_ in (asx, asy, aex, aey, bsx, bsy, bex, bey)] + [T.fcmp("fle", v_, 100.0) for v_ in (asx, asy, aex, aey, bsx, bsy, bex, bey)]
+    inside_m = T.band(T.fcmp("fle", 0.01, ua), T.fcmp("fle", ua, 0.99), T.fcmp("fle", 0.01, ub), T.fcmp("fle", ub, 0.99))
+    outside_m = T.bor(T.fcmp("flt", ua, -0.01), T.fcmp("flt", 1.01, ua), T.fcmp("flt", ub, -0.01), T.fcmp("flt", 1.01, ub))
+    qs[-1].robust = box_ + [T.bor(T.fcmp("fle", 0.01, den), T.fcmp("fle", den, -0.01)), T.bor(T.band(inside_m, T.bnot(code_l)), T.band(outside_m, code_l))]
     qs.append(Query("segment: parallel => code no", pcl + [T.fcmp("feq", den, 0.0), code_l], meta=dict(fn="Line2::intersects")))
     qs.append(Query("segment: swap symmetry (reals)", pcl + [xor(code_l, code_l_sw)], meta=dict(fn="Line2::intersects")))
     # bit-precise swap symmetry: the float expressions are exact negations of each other
@@ -241,9 +245,41 @@ def c12(res, tier, seed):
                     refs.append(r1)
             qs.append(Query("polygon(%d): shape test == OR over all %d edge pairs" % (n, n * n), pcs2 + [xor(cs, T.bor(*refs))], meta=dict(fn="LineShape::intersects")))
 
+    # ---- polygon pairs at the level of the property's own statement: copy A at the identity, copy B rotated (or
+    # mirrored and rotated) by an angle from a grid and translated by a symbolic offset.  With the rotation concrete the
+    # real transform + intersects code is linear in the offset, so every query is decided at once.  unsat on the grid
+    # proves nothing between grid angles (the for-all statement is carried by L(n) and the edge-pair obligation above);
+    # the point of these obligations is that a model is a pair of placed polygons the native test can be asked about.
+    pair_qs = []
+    NPHI = 24 if tier == "quick" else 96
+    pdx, pdy = F("pdx"), F("pdy")
+    boxp = [T.fcmp("fle", -3.0, pdx), T.fcmp("fle", pdx, 3.0), T.fcmp("fle", -3.0, pdy), T.fcmp("fle", pdy, 3.0)]
+    for n in ((3, 4) if tier == "quick" else (3, 4, 5, 6)):
+        sdata = data["shapes"]["polygon%d" % n]
+        shape_val = S.shape_value(sdata)
+        sitems = [tuple(S.clean(unjf(v)) for v in it_) for it_ in sdata["items"]]
+        for mirror in (False, True):
+            for kphi in range(2 * NPHI):
+                phi = (kphi // 2) * 2 * math.pi / NPHI + (0.0 if kphi % 2 == 0 else math.pi / NPHI + 0.0071)
+                cph, sph = math.cos(phi), math.sin(phi)
+                mx = -1.0 if mirror else 1.0
+                Pm = [1.0, 0.0, 0.0, 0.0, 1.0, 0.0]
+                Qm = [cph * mx, -sph, pdx, sph * mx, cph, pdy]
+                s1, p1, _ = E.run(ex, f_ls_tr, [E.ByRef(shape_val), E.ByRef(S.transform2(Pm + [0.0, 0.0, 1.0]))])
+                s2, p2, _ = E.run(ex, f_ls_tr, [E.ByRef(shape_val), E.ByRef(S.transform2(Qm + [0.0, 0.0, 1.0]))])
+                cab, p3, _ = E.run(ex, f_ls, [E.ByRef(s1), E.ByRef(s2)])
+                cba, p4, _ = E.run(ex, f_ls, [E.ByRef(s2), E.ByRef(s1)])
+                deep = true_overlap("line", sitems, Pm, Qm, tol=1e-6)
+                sep = T.bnot(true_overlap("line", sitems, Pm, Qm, tol=-1e-6))
+                meta_ = dict(fn="LineShape::transform + LineShape::intersects", n=n, mirror=mirror, phi=phi, kind="pair")
+                pair_qs.append(Query("polygon(%d) pair, %srotation %.4f: overlap deeper than 1e-6 => test says yes" % (n, "mirror + " if mirror else "", phi), boxp + [deep, T.bnot(cab)], timeout=30, meta=meta_))
+                pair_qs.append(Query("polygon(%d) pair, %srotation %.4f: separated by more than 1e-6 => test says no" % (n, "mirror + " if mirror else "", phi), boxp + [sep, cab], timeout=30, meta=meta_))
+                pair_qs.append(Query("polygon(%d) pair, %srotation %.4f: same answer with the arguments swapped" % (n, "mirror + " if mirror else "", phi), boxp + [xor(cab, cba)], timeout=30, meta=meta_))
+
     # ---- encoder validation against the real functions (path-covering models + repo test vectors)
     val = validate_kernels(ex, f_line, f_atom, code_l, code_ab, la, lb, a, b)
     done = run_queries(qs)
+    pair_done = run_queries(pair_qs)
 
     def replay(q):
         m = q.model
@@ -279,6 +315,56 @@ def c12(res, tier, seed):
 
     for q in done:
         record(res, q, replay)
+
+    def replay_pair(q):
+        mt = q.meta
+        dxv, dyv = q.model.get("pdx"), q.model.get("pdy")
+        if dxv is None or dyv is None:
+            return ("spurious", "model not numeric")
+        cph, sph = math.cos(mt["phi"]), math.sin(mt["phi"])
+        mx = -1.0 if mt["mirror"] else 1.0
+        A_ = [1.0, 0.0, 0.0, 0.0, 1.0, 0.0, 0.0, 0.0, 1.0]
+        B_ = [cph * mx, -sph, dxv, sph * mx, cph, dyv, 0.0, 0.0, 1.0]
+        outs = [native_eval([dict(fn="LineShape::intersects", args=[[1.0] * mt["n"], A_, B_])], prof)[0] for prof in ("debug", "release")]
+        o = outs[0]
+        if "va" not in o:
+            return ("spurious", "native call failed")
+        va, vb = [[unjf(c_) for c_ in v_] for v_ in o["va"]], [[unjf(c_) for c_ in v_] for v_ in o["vb"]]
+        # exact-geometry verdict with floats and a margin: penetration depth along the best separating edge normal
+        def depth(VA, VB):
+            best = None
+            nA = len(VA)
+            for k_ in range(nA):
+                (x0, y0), (x1, y1) = VA[k_], VA[(k_ + 1) % nA]
+                (xi, yi) = VA[(k_ + 2) % nA]
+                ex_, ey_ = x1 - x0, y1 - y0
+                ln = math.hypot(ex_, ey_)
+                sd = lambda px_, py_: (ex_ * (py_ - y0) - ey_ * (px_ - x0)) / ln
+                sg = 1.0 if sd(xi, yi) > 0 else -1.0
+                dk = max(sg * sd(bx_, by_) for bx_, by_ in VB)     # how deep B reaches inside edge k of A
+                best = dk if best is None else min(best, dk)
+            return best
+        pen = min(depth(va, vb), depth(vb, va))   # > 0: interiors intersect by about pen; < 0: separated by about -pen
+        said = [(o_["ab"], o_["ba"]) for o_ in outs]
+        what = None
+        if "overlap deeper" in q.name and pen > 1e-8 and all(not s_[0] for s_ in said):
+            what = "the polygons overlap by %.3g but LineShape::intersects says no" % pen
+        elif "separated by" in q.name and pen < -1e-8 and all(s_[0] for s_ in said):
+            what = "the polygons are %.3g apart but LineShape::intersects says yes" % -pen
+        elif "swapped" in q.name and all(s_[0] != s_[1] for s_ in said):
+            what = "intersects(a,b) = %s but intersects(b,a) = %s" % said[0]
+        if what:
+            return ("violated", "polygon(%d) pair, B %srotated by %.6g and moved by (%.9g, %.9g): %s" % (mt["n"], "mirrored, " if mt["mirror"] else "", mt["phi"], dxv, dyv, what),
+                    dict(kind="eval", fn="LineShape::intersects", radii=[1.0] * mt["n"], a=A_, b=B_, native=outs[0]), dict(clause="polygon-pair", sides=mt["n"]))
+        return ("spurious", "native test agrees with the geometry on the model (penetration %.3g, test says %s)" % (pen, said[0]))
+    good = [q for q in pair_done if q.status == "unsat"]
+    for q in pair_done:
+        if q.status != "unsat":
+            record(res, q, replay_pair)
+    if good:
+        res.ob("polygon pairs on the rotation grid: %d queries unsat (overlap => yes, separated => no, swap; offsets symbolic)" % len(good), "mirsym+z3/R", "discharged", "unsat", sum(q.secs for q in good),
+               dict(queries=len(good), example=good[0].name))
+    res.extra["polygon_pair_queries"] = len(pair_done)
     res.functions = used_fns(ex)
     res.stubs = summaries_used()
     res.extra["encoder_validation"] = val
@@ -640,6 +726,8 @@ def c14(res, tier, seed):
         mdl = q.model
         if "to_cartesian(x,y)" in q.name or "area" in q.name:
             return replay_cell(q)
+        if q.name.startswith("periodic_images(k="):
+            return replay_images(q)
         return None
     for qq in done:
         record(res, qq, replay)
@@ -653,6 +741,44 @@ def c14(res, tier, seed):
         for o in res.obligations:
             if o["status"] == "discharged":
                 o["status"] = "undischarged"
+
+
+def replay_images(q):
+    """native periodic_images on the model's placement (and cell, when it is a valid one) against the lattice translates"""
+    import re as _re
+    m = q.model
+    mm_ = _re.match(r"periodic_images\(k=(\d+), zero=(True|False)\)", q.name)
+    k, zero = int(mm_.group(1)), mm_.group(2) == "True"
+    a_, q_, t_ = m.get("a"), m.get("q"), m.get("t")
+    if a_ is None or q_ is None or t_ is None or not (0.01 <= a_ <= 50 and 0.1 <= q_ <= 1 and 0.5 <= t_ <= 1.5708):
+        a_, q_, t_ = 1.5, 0.8, 1.2   # the model's cell is arbitrary (uninterpreted sin/cos); any valid cell shows a genuine defect
+    cellj = dict(length=a_, ratio=q_, angle=t_, family="Monoclinic")
+    pl = [m.get("m%d" % i) for i in range(6)]
+    if any(v is None for v in pl):
+        return ("spurious", "model not numeric")
+    placement = [pl[0], pl[1], pl[2], pl[3], pl[4], pl[5], 0.0, 0.0, 1.0]
+    out = native_eval([dict(fn="Cell2::periodic_images", args=[cellj, [jf(v) for v in placement], k, zero])])[0]
+    if not isinstance(out, list):
+        return ("spurious", "native call failed: %s" % (out,))
+    A = (a_, 0.0)
+    B = (a_ * q_ * math.cos(t_), a_ * q_ * math.sin(t_))
+    expect = [(n, mm) for n in range(-k, k + 1) for mm in range(-k, k + 1) if zero or (n, mm) != (0, 0)]
+    bad = None
+    if len(out) != len(expect):
+        bad = "yields %d images, expected %d" % (len(out), len(expect))
+    else:
+        for itm, (n, mm) in zip(out, expect):
+            M = [unjf(v) for v in itm]
+            ex_x = (pl[2] + n) * A[0] + (pl[5] + mm) * B[0]
+            ex_y = (pl[5] + mm) * B[1]
+            sc = max(1.0, abs(ex_x), abs(ex_y))
+            if abs(M[2] - ex_x) > 1e-9 * sc or abs(M[5] - ex_y) > 1e-9 * sc or any(abs(M[i] - pl[i]) > 1e-9 for i in (0, 1, 3, 4)):
+                bad = "image (%d,%d) is at (%.9g, %.9g) with linear part %s, the lattice translate is at (%.9g, %.9g)" % (n, mm, M[2], M[5], [M[0], M[1], M[3], M[4]], ex_x, ex_y)
+                break
+    if bad:
+        return ("violated", "Cell2::periodic_images(k=%d, zero=%s) of the placement with fractional position (%.6g, %.6g) in cell %s: %s" % (k, zero, pl[2], pl[5], cellj, bad),
+                dict(kind="eval", fn="Cell2::periodic_images", cell=cellj, placement=placement, k=k, zero=zero), dict(clause="periodic-images", k=k, zero=zero))
+    return ("spurious", "native periodic_images agrees with the lattice translates for the model's placement")
 
 
 def replay_cell(q):
@@ -2026,7 +2152,62 @@ def translate_overlap(shape_data, P, Q, margin=0.0):
     return T.band(*conj)
 
 
-def c01(res, tier, seed):
+C01_SHAPES_THOROUGH = ["circle", "square", "triangle", "trimer"]
+C01_GROUPS_THOROUGH = ["p1", "p2", "p1m1", "p1g1", "p2mm", "p2mg", "p2gg"]
+
+
+def c01_entry(res, tier, seed):
+    """quick: one process.  thorough: one process per (group, shape) context, four at a time."""
+    if tier != "thorough" or os.environ.get("VERIF_C01_MATCH"):
+        return c01(res, tier, seed)
+    import multiprocessing as mp, concurrent.futures as cf_
+    import mq as _mq
+    E.load()   # MIR dump and parse once; the children inherit the parsed functions
+    ctxs = [(g, sname) for sname in C01_SHAPES_THOROUGH for g in C01_GROUPS_THOROUGH]
+    with cf_.ProcessPoolExecutor(max_workers=4, mp_context=mp.get_context("fork")) as pool:
+        outs = list(pool.map(_c01_child, [(tier, seed, c_) for c_ in ctxs]))
+    for c_, o in zip(ctxs, outs):
+        if o.get("error"):
+            res.ob("[%s x %s] context" % c_, "mirsym", "undischarged", o["error"][:300])
+            continue
+        res.obligations += o["obligations"]
+        res.violations += o["violations"]
+        res.known += o["known"]
+        res.inconclusive += o["inconclusive"]
+        res.samples = (res.samples + o["samples"])[:12]
+        for k_, v_ in o["solver_s"].items():
+            res.solver_s[k_] = res.solver_s.get(k_, 0.0) + v_
+        for k_, v_ in o["extra"].items():
+            res.extra[k_] = res.extra.get(k_, 0) + v_ if isinstance(v_, (int, float)) else v_
+        for fld in ("functions", "stubs", "assumptions"):
+            cur = getattr(res, fld)
+            for x_ in o[fld]:
+                if x_ not in cur:
+                    cur.append(x_)
+        for x_ in o["bounds"]:
+            x2 = x_.split(";")[-1] if x_.startswith("groups [") else x_
+            if x2 not in res.bounds:
+                res.bounds.append(x2)
+    res.bounds.insert(0, "groups %s x shapes %s; every cell in the optimiser's bounds (length [0.01,50], ratio [0.1,1], angle [pi/6,pi/2]) and site in [-1/2,1/2]^2 with any orientation" % (C01_GROUPS_THOROUGH, C01_SHAPES_THOROUGH))
+
+
+def _c01_child(arg):
+    tier, seed, ctx = arg
+    import mq as _mq, traceback
+    _mq.DEFAULT_WORKERS = 4
+    r = Result("C01", tier, seed)
+    try:
+        c01(r, tier, seed, only_ctx=ctx)
+    except Unsupported as e:
+        return dict(error="unsupported MIR construct: %s" % e)
+    except Exception as e:
+        return dict(error="%s: %s %s" % (type(e).__name__, e, traceback.format_exc()[-400:]))
+    drops = [d_ for ex_ in E.LOADED for d_ in getattr(ex_, "cast_dropped", [])]
+    return dict(obligations=r.obligations, violations=r.violations, known=r.known, inconclusive=r.inconclusive, samples=r.samples, solver_s=r.solver_s,
+                extra=r.extra, functions=r.functions, stubs=r.stubs, assumptions=r.assumptions, bounds=r.bounds)
+
+
+def c01(res, tier, seed, only_ctx=None):
     import math
     data = S.real_data()
     groups = data["groups"]
@@ -2035,7 +2216,7 @@ def c01(res, tier, seed):
     if tier == "thorough":
         shapes.append(("trimer", "mol", "molecular_shape2::MolecularShape2", data["shapes"]["trimer:0.637556,120,1"]))
     shapes.append(("triangle", "line", "line_shape::LineShape", data["shapes"]["polygon3"]))
-    glist = ["p1", "p2"] if tier == "quick" else ["p1", "p2", "p1m1", "p1g1", "p2mg", "p2gg"]
+    glist = ["p1", "p2"] if tier == "quick" else C01_GROUPS_THOROUGH
     a, q, t, x, y, th = F("a"), F("q"), F("t"), F("x"), F("y"), F("th")
     c_, s_ = T.uf("cos", [t]), T.uf("sin", [t])
     cth, sth = T.uf("cos", [th]), T.uf("sin", [th])
@@ -2051,7 +2232,7 @@ def c01(res, tier, seed):
     all_q = []
     ctxs = []
     convs = []
-    Kmax = 3 if tier == "quick" else 5
+    Kmax = 3 if tier == "quick" else 4
 
     def P(qq, conv):
         """attach the change-of-variables form (vlib/polyq.py) when every atom converts; otherwise the
@@ -2073,6 +2254,8 @@ def c01(res, tier, seed):
         fam = "Monoclinic" if groups[g]["family"] == "Monoclinic" else groups[g]["family"]
         N = len(groups[g]["ops"])
         for sname, skind, sty, sdata in shapes:
+            if only_ctx is not None and (g, sname) != tuple(only_ctx):
+                continue
             R = unjf(sdata["enclosing_radius"])
             exo.record_intersects = []
             exo.int_cast_range = (0, Kmax)
@@ -2088,23 +2271,47 @@ def c01(res, tier, seed):
             fixR = [T.fcmp("feq", exo_R, R)]
             conv = polyq.Converter(a, q, c_, s_, cth, sth, consts={exo_R.id: R}, drop=[dom_geo[4]])
             convs.append(conv)
-            # label the log entries (order replicated from the loops: in-cell i<j, then i, j, (n,m) lexicographic)
-            # arms of the search: entries are grouped by the path-condition prefix in force at an arm's first test
+            # ---- reading the log.  Nothing is assumed about the order or shape of the loops:
+            #  * a literal "mentions a test" when it contains one of the recorded Booleans; the literals of a test's path
+            #    condition before the first such literal are the region R (shell-count guards), the literals after it
+            #    that mention no test are the test's own prefilter;
+            #  * an entry whose path condition mentions no test is the first of its arm; it is attached to the arm
+            #    whose R is a prefix of its path condition;
+            #  * which copy and which lattice image a test compares is read off the placements themselves (numeric
+            #    fingerprint, then verified as a polynomial identity).
+            xids = set(e["x"].id for e in log)
+            mention_memo = {}
+
+            def mentions_test(lit):
+                if not T.is_t(lit):
+                    return False
+                if lit.id not in mention_memo:
+                    mention_memo[lit.id] = any(v_.id in xids for v_ in T.free_vars([lit]))
+                return mention_memo[lit.id]
             arms_ = []
+            arm_of = {}
+            firsts = []
             for e in log:
-                arm = None
-                for ar in arms_:
-                    pf = ar["prefix"]
-                    if len(e["pc"]) >= len(pf) and all(x_ is y_ for x_, y_ in zip(pf, e["pc"])):
-                        arm = ar
-                        break
-                if arm is None:
-                    arm = dict(prefix=list(e["pc"]) if N > 1 else list(e["pc"][:-1]), ents=[], k=e["k"])
-                    arms_.append(arm)
-                arm["ents"].append(e)
+                idx0 = next((ix for ix, lit in enumerate(e["pc"]) if mentions_test(lit)), None)
+                if idx0 is None:
+                    firsts.append(e)
+                    continue
+                Rk = tuple(id(z_) for z_ in e["pc"][:idx0])
+                if Rk not in arm_of:
+                    arm_of[Rk] = dict(prefix=list(e["pc"][:idx0]), ents=[], k=e["k"])
+                    arms_.append(arm_of[Rk])
+                e["pre_list"] = [lit for lit in e["pc"][idx0:] if not mentions_test(lit)]
+                arm_of[Rk]["ents"].append(e)
+            consistent = True
+            for e in firsts:
+                cands = [ar for ar in arms_ if len(e["pc"]) >= len(ar["prefix"]) and all(x_ is y_ for x_, y_ in zip(ar["prefix"], e["pc"])) and ar["k"] == e["k"]]
+                if len(cands) != 1:
+                    consistent = False
+                    continue
+                e["pre_list"] = list(e["pc"][len(cands[0]["prefix"]):])
+                cands[0]["ents"].insert(0, e)
             by_k = {}
             G_of = {}
-            consistent = True
             for ar in arms_:
                 k_ = ar["k"]
                 if k_ not in by_k:
@@ -2113,21 +2320,72 @@ def c01(res, tier, seed):
                 else:
                     # another arm with the same shell count must perform literally the same tests
                     ref = by_k[k_]
-                    same = len(ref) == len(ar["ents"]) and all(all(x_ is y_ for x_, y_ in zip(e1["p"] + e1["q"], e2["p"] + e2["q"])) and
-                                                               (len(e1["pc"]) - len(G_of[k_][0])) == (len(e2["pc"]) - len(ar["prefix"])) for e1, e2 in zip(ref, ar["ents"]))
+                    same = len(ref) == len(ar["ents"]) and all(all(x_ is y_ for x_, y_ in zip(e1["p"] + e1["q"], e2["p"] + e2["q"])) and len(e1["pre_list"]) == len(e2["pre_list"]) and
+                                                               all(x_ is y_ for x_, y_ in zip(e1["pre_list"], e2["pre_list"])) for e1, e2 in zip(ref, ar["ents"]))
                     if not same:
                         consistent = False
                     G_of[k_].append(ar["prefix"])
+            A = (a, 0.0)
+            Bv = (T.fbin("fmul", T.fbin("fmul", a, q), c_), T.fbin("fmul", T.fbin("fmul", a, q), s_))
+
+            def image(Pj, n_, m_):
+                dx = T.fbin("fadd", T.fbin("fmul", float(n_), A[0]), T.fbin("fmul", float(m_), Bv[0]))
+                dy = T.fbin("fmul", float(m_), Bv[1])
+                return [Pj[0], Pj[1], T.fbin("fadd", Pj[2], dx), Pj[3], Pj[4], T.fbin("fadd", Pj[5], dy)]
+            envs_ = [dict(a=1.7, q=0.83, t=1.21, x=0.137, y=-0.211, th=0.71, shape_R=R), dict(a=2.9, q=0.57, t=0.93, x=-0.291, y=0.173, th=2.3, shape_R=R)]
+            funcs_ = {"cos": math.cos, "sin": math.sin}
+
+            def fprint(P):
+                return tuple(round(float(T.evaluate(z_, en_, funcs_)), 8) for en_ in envs_ for z_ in P[:6])
             labelled = {}
-            for k, ents in by_k.items():
-                lab = [(i_, j_, 0, 0) for i_ in range(N) for j_ in range(i_ + 1, N)]
-                lab += [(i_, j_, n_, m_) for i_ in range(N) for j_ in range(N) for n_ in range(-k, k + 1) for m_ in range(-k, k + 1) if (n_, m_) != (0, 0)]
-                if len(lab) != len(ents):
+            Pcopy = {}
+            if consistent and by_k:
+                seen_fp = {}
+                for e in by_k[sorted(by_k)[0]]:
+                    f_ = fprint(e["p"])
+                    if f_ not in seen_fp:
+                        seen_fp[f_] = len(seen_fp)
+                        Pcopy[seen_fp[f_]] = e["p"]
+                if len(Pcopy) != N:
                     consistent = False
-                    continue
-                for l_, e in zip(lab, ents):
-                    labelled[(k,) + l_] = e
-            q0 = Query("[%s x %s] structure: the overlap search tests in-cell pairs i<j and every (i, j, image) with |n|,|m| <= k, k in {1,2,3} (%d tests recorded)" % (g, sname, len(log)), [not consistent],
+            if consistent and by_k:
+                kmax_ = max(by_k)
+                cand = {}
+                for j_ in range(N):
+                    for n_ in range(-kmax_ - 1, kmax_ + 2):
+                        for m_ in range(-kmax_ - 1, kmax_ + 2):
+                            cand.setdefault(fprint(image(Pcopy[j_], n_, m_)), (j_, n_, m_))
+                cfp = {fprint(Pcopy[i_]): i_ for i_ in range(N)}
+                wmap_, _ = unwrap_terms([z_ for i_ in range(N) for z_ in Pcopy[i_] if T.is_t(z_)], link=False)
+                vmemo, pm_ = {}, {}
+                names_ = {c_.id: "c", s_.id: "s", cth.id: "cth", sth.id: "sth"}
+
+                def same_poly(u_, w_):
+                    if u_ is w_:
+                        return True
+                    try:
+                        pu = polyq.to_poly(T.subst(u_, wmap_, vmemo) if T.is_t(u_) else u_, names_, pm_)
+                        pw = polyq.to_poly(T.subst(w_, wmap_, vmemo) if T.is_t(w_) else w_, names_, pm_)
+                    except polyq.NotPoly:
+                        return False
+                    return pu == pw
+                verified = {}
+                for k, ents in by_k.items():
+                    for e in ents:
+                        i_ = cfp.get(fprint(e["p"]))
+                        jm = cand.get(fprint(e["q"]))
+                        if i_ is None or jm is None:
+                            consistent = False
+                            continue
+                        key_ = (tuple(id(z_) for z_ in e["q"]), jm)
+                        if key_ not in verified:
+                            img_ = image(Pcopy[jm[0]], jm[1], jm[2])
+                            verified[key_] = all(same_poly(u_, w_) for u_, w_ in zip(e["q"], img_)) and all(same_poly(u_, w_) for u_, w_ in zip(e["p"], Pcopy[i_]))
+                        if not verified[key_]:
+                            consistent = False
+                            continue
+                        labelled.setdefault((k, i_) + jm, e)
+            q0 = Query("[%s x %s] structure: every recorded test compares a copy with a lattice image of a copy (placements identified and verified as polynomial identities; %d tests recorded, shell counts %s)" % (g, sname, len(log), sorted(by_k)), [not consistent],
                        meta=dict(group=g, shape=sname, fn="PackedState::check_intersection (S opaque)"), nontrivial=False)
             all_q.append(q0)
             if not consistent:
@@ -2152,19 +2410,7 @@ def c01(res, tier, seed):
             sitems = [tuple(unjf(v) for v in it_) for it_ in sdata["items"]]
             if skind == "line":
                 sitems = [tuple(S.clean(v) for v in it_) for it_ in sitems]
-            # placements of the copies (from the log: first periodic entry of each i gives P_i; images give P_j + nA + mB)
-            k0 = sorted(by_k)[0]
-            Pcopy = {}
-            for i_ in range(N):
-                Pcopy[i_] = labelled[(k0, i_, 0, 1, 0)]["p"] if N >= 1 else None
-            A = (a, 0.0)
-            Bv = (T.fbin("fmul", T.fbin("fmul", a, q), c_), T.fbin("fmul", T.fbin("fmul", a, q), s_))
-
-            def image(Pj, n_, m_):
-                dx = T.fbin("fadd", T.fbin("fmul", float(n_), A[0]), T.fbin("fmul", float(m_), Bv[0]))
-                dy = T.fbin("fmul", float(m_), Bv[1])
-                return [Pj[0], Pj[1], T.fbin("fadd", Pj[2], dx), Pj[3], Pj[4], T.fbin("fadd", Pj[5], dy)]
-            Wn, Wm = (4, 4) if tier == "quick" else (6, 6)
+            Wn, Wm = (4, 4) if tier == "quick" else (5, 5)
             ctx = dict(group=g, shape=sname, skind=skind, sdata=sdata, N=N, fam=fam, Pcopy=Pcopy)
             # per shell count k: the region condition G_k (path literals before the first test) and one
             # clause per test:  prefilter_e => not intersects_e .  The extraction is validated against the
@@ -2177,8 +2423,7 @@ def c01(res, tier, seed):
                 for lab, e in labelled.items():
                     if lab[0] != k:
                         continue
-                    is_periodic = (lab[3], lab[4]) != (0, 0) or lab[1] == lab[2]
-                    pre = e["pc"][-1] if is_periodic else True
+                    pre = T.band(*e["pre_list"]) if e["pre_list"] else True
                     clauses[lab[1:]] = (pre, e)
                 regions[k] = (G, clauses)
                 # validation: F and G_k imply every clause (with the X's as in F)
@@ -2339,7 +2584,7 @@ def c01(res, tier, seed):
                         ctxs.append((qq, ctx))
     import time as _time
     t_start = _time.time()
-    budget = 420 if tier == "quick" else 7200
+    budget = 420 if tier == "quick" else 1500
     deadline = t_start + budget
     if os.environ.get("VERIF_C01_MATCH"):
         # debugging aid: restrict to the obligations whose name contains the substring and dump their scripts
@@ -2390,186 +2635,6 @@ def c01(res, tier, seed):
             q2 = qq.stage2()
             ctx_of[id(q2)] = ctx_of.get(id(qq))
             stage2.append((qq, q2))
-    def theta_bb(goals, deadline):
-        """Orientation branch and bound.  Each goal's atoms are affine in (cos, sin) of the shape orientation.  The
-        circle of orientations is covered by intervals; on an interval every atom is weakened to 'holds for some
-        orientation of the interval' (polyq.relax_theta), which removes the orientation from the query.  unsat on
-        every interval of a cover = the goal is unsat for every orientation.  An interval that is not unsat is
-        halved; for a sat interval the exact query with the orientation pinned to its midpoint is asked too, and a
-        model of that one is a counterexample candidate (replayed like any other)."""
-        N0 = 64
-        maxdepth = 3 if tier == "quick" else 7
-        tmo = 30 if tier == "quick" else 180
-        front = {}
-        info = {}
-        for gq in goals:
-            front[id(gq)] = [(k_ * 2 * math.pi / N0, 2 * math.pi / N0, 0) for k_ in range(N0)]
-            info[id(gq)] = dict(goal=gq, closed=0, open=[], sat=None, queries=0, finest=2 * math.pi / N0, secs=0.0)
-        cache = {}
-        rounds = 0
-
-        def pinned(gq, thm):
-            cm_, sm_ = math.cos(thm), math.sin(thm)
-            pq_ = Query(gq.name + " [orientation = %.5f]" % thm, [], timeout=tmo, meta=gq.meta)
-            pq_.poly_text = polyq.script_of(polyq.pin_theta(gq.poly_skels, cm_, sm_))
-            pq_.poly_back = lambda m_, dxy=gq.poly_dxy, cm_=cm_, sm_=sm_: dict(polyq.Converter.model_back(m_, dxy), cth=cm_, sth=sm_)
-            return pq_
-        # phase A, counterexample search: the exact query at the midpoint of every base interval (cheap: no
-        # orientation variable left).  A model ends the goal (it is replayed); unsat proves nothing yet.
-        pcache = {}
-        pa = []
-        for gid, inf in info.items():
-            for (th0, w, dep) in front[gid]:
-                pq_ = pinned(inf["goal"], th0 + w / 2)
-                if pq_.poly_text in pcache:
-                    continue
-                pcache[pq_.poly_text] = pq_
-                pa.append((gid, pq_))
-        _rnd2 = __import__("random").Random(seed)
-        _rnd2.shuffle(pa)
-        run_queries([pq_ for _, pq_ in pa], deadline=_time.time() + (deadline - _time.time()) * 0.5)
-        for gid, pq_ in pa:
-            info[gid]["secs"] += pq_.secs
-            if pq_.status == "sat" and info[gid]["sat"] is None:
-                info[gid]["sat"] = pq_
-                front[gid] = []
-        res.extra["orientation_pinned_queries"] = len(pa)
-        while any(front.values()) and _time.time() < deadline:
-            rounds += 1
-            batch = []
-            for gid, ivs in front.items():
-                gq = info[gid]["goal"]
-                for (th0, w, dep) in ivs:
-                    sks = polyq.relax_theta(gq.poly_skels, math.cos(th0), math.sin(th0), w * (1 + 1e-6))
-                    text = polyq.script_of(sks)
-                    rq = cache.get(text)
-                    if rq is None:
-                        rq = Query(gq.name + " [orientation in %.4f+%.4f]" % (th0, w), [], timeout=tmo, meta=gq.meta)
-                        rq.poly_text = text
-                        cache[text] = rq
-                        batch.append(rq)
-                    info[gid].setdefault("pending", []).append((th0, w, dep, rq))
-            run_queries(batch, deadline=deadline)
-            pins = []
-            for gid in list(front):
-                inf = info[gid]
-                nxt = []
-                for (th0, w, dep, rq) in inf.pop("pending", []):
-                    inf["queries"] += 1
-                    inf["secs"] += rq.secs
-                    if rq.status == "unsat":
-                        inf["closed"] += 1
-                        inf["finest"] = min(inf["finest"], w)
-                        continue
-                    if rq.status == "sat" and inf["sat"] is None:
-                        if dep > 0:
-                            pins.append((gid, pinned(inf["goal"], th0 + w / 2)))
-                    if dep < maxdepth:
-                        nxt += [(th0, w / 2, dep + 1), (th0 + w / 2, w / 2, dep + 1)]
-                    else:
-                        inf["open"].append((th0, w, rq.status))
-                front[gid] = nxt
-            if pins:
-                run_queries([pq_ for _, pq_ in pins], deadline=deadline)
-                for gid, pq_ in pins:
-                    info[gid]["secs"] += pq_.secs
-                    if pq_.status == "sat" and info[gid]["sat"] is None:
-                        info[gid]["sat"] = pq_
-                        front[gid] = []
-        for gid, inf in info.items():
-            gq = inf["goal"]
-            gq.secs += inf["secs"]
-            left = len(front.get(gid, [])) + len(inf["open"])
-            gq.meta = dict(gq.meta, orientation_intervals=inf["queries"], intervals_unsat=inf["closed"], intervals_open=left, finest_interval=round(inf["finest"], 5))
-            if inf["sat"] is not None:
-                gq.status, gq.model = "sat", inf["sat"].model
-                gq.term_names = dict(gq.poly_conv.term_names)
-            elif left == 0:
-                gq.status = "unsat"
-                gq.meta = dict(gq.meta, decided_by="orientation branch and bound: %d intervals covering the circle, all unsat" % inf["closed"])
-            else:
-                gq.status, gq.raw = "unknown", "orientation branch and bound: %d of %d intervals not unsat at width %.4f (%s)" % (left, inf["queries"], inf["finest"], "budget" if front.get(gid) else "depth limit")
-            gq.bb_done = True
-        res.extra["orientation_bb_goals"] = len(goals)
-        res.extra["orientation_bb_queries"] = len(cache)
-        res.extra["orientation_bb_rounds"] = rounds
-
-    if stage2:
-        bb = []
-        for q1, q2 in stage2:
-            try:
-                if getattr(q2, "poly_skels", None) is not None:
-                    polyq.relax_theta(q2.poly_skels, 1.0, 0.0, 0.1)
-                    bb.append(q2)
-            except polyq.NotPoly as e_:
-                q2.meta = dict(q2.meta, no_orientation_bb=str(e_))
-            if os.environ.get("VERIF_C01_MATCH"):
-                print("stage2", q2.name[:70], "converted" if getattr(q2, "poly_skels", None) is not None else q2.meta.get("not_converted"), q2.meta.get("no_orientation_bb"))
-        if bb and not os.environ.get("VERIF_C01_NOBB"):
-            theta_bb(bb, _time.time() + (360 if tier == "quick" else 3600))
-            repl0 = {id(q1): q2 for q1, q2 in stage2 if getattr(q2, "bb_done", False)}
-            done = [repl0.get(id(qq), qq) for qq in done]
-            stage2 = [(q1, q2) for q1, q2 in stage2 if not getattr(q2, "bb_done", False)]
-    if stage2:
-        if os.environ.get("VERIF_C01_MATCH"):
-            for n_, (_, q2) in enumerate(stage2):
-                open(os.path.join(E.TARGET, "c01_dump_s2_%d.smt2" % n_), "w").write("; %s\n" % q2.name + q2.script()[0])
-        run_queries([q2 for _, q2 in stage2], deadline=deadline)
-        split_unknown([q2 for _, q2 in stage2], "split_round2")
-        repl0 = {id(q1): q2 for q1, q2 in stage2}
-        done = [repl0.get(id(qq), qq) for qq in done]
-        stage2 = []
-    # counterexample search for what is still undecided: the same exact query with (angle, ratio) fixed on a
-    # grid that hugs the guards' own thresholds (the remaining variables -- cell length, relative offset,
-    # orientation -- stay symbolic).  A sat cell is replayed; unsat cells prove nothing beyond the grid and the
-    # obligation stays undischarged.
-    import math as _m2
-    offs = [0.0, 0.1, 0.19, 0.21, 0.35, 0.45, 0.49, 0.51, 0.8, 1.04]
-    ratios = [1.0, 0.8, 0.6, 0.53, 0.51, 0.49, 0.4, 0.34, 0.32, 0.2, 0.1]
-    undec = [qq for qq in done if qq.status not in ("sat", "unsat") and getattr(qq, "rawq", None) is not None and not getattr(qq, "bb_done", False)][:40]
-    gridq = []
-    thetas = [k_ * _m2.pi / 8 + 0.05 for k_ in range(4)]   # squares/triangles: orientation modulo the shape's symmetry
-    for qq in undec:
-        raw, fin = qq.rawq
-        qq.grid = []
-        is_poly = "square" in qq.name or "triangle" in qq.name
-        for off in offs:
-            ang = _m2.pi / 2 - off
-            cv, sv = _m2.cos(ang), _m2.sin(ang)
-            for rv_ in ratios:
-                for thv in (thetas if is_poly else [None]):
-                    pin = [T.fcmp("fle", cv - 1e-12, c_), T.fcmp("fle", c_, cv + 1e-12), T.fcmp("fle", sv - 1e-12, s_), T.fcmp("fle", s_, sv + 1e-12), T.fcmp("feq", q, rv_)]
-                    if thv is not None:
-                        ct, st_ = _m2.cos(thv), _m2.sin(thv)
-                        pin += [T.fcmp("fle", ct - 1e-12, cth), T.fcmp("fle", cth, ct + 1e-12), T.fcmp("fle", st_ - 1e-12, sth), T.fcmp("fle", sth, st_ + 1e-12)]
-                    gq = Query(qq.name + " [grid angle=pi/2-%g ratio=%g%s]" % (off, rv_, "" if thv is None else " theta=%.3f" % thv), fin(raw + pin, i_=qq.meta.get("i"), j_=qq.meta.get("j")), timeout=10, meta=qq.meta)
-                    gq.get_terms = [c_, s_, cth, sth]
-                    gq.rawq = (raw + pin, fin)
-                    P(gq, getattr(qq, "poly_conv", None))
-                    qq.grid.append(gq)
-                    gridq.append(gq)
-    if gridq:
-        # interleave the goals so that a short budget still touches every goal
-        import random as _rnd
-        _rnd.Random(seed).shuffle(gridq)
-        run_queries(gridq, deadline=deadline + (180 if tier == "quick" else 3600))
-        for qq in undec:
-            hits = [gq for gq in qq.grid if gq.status == "sat"]
-            qq.secs += sum(gq.secs for gq in qq.grid)
-            if hits:
-                qq.status, qq.model = "sat", hits[0].model
-                qq.term_names = getattr(hits[0], "term_names", {})
-                qq.rawq = hits[0].rawq
-            else:
-                qq.meta = dict(qq.meta, grid_cells_unsat=sum(1 for gq in qq.grid if gq.status == "unsat"), grid_cells=len(qq.grid))
-        res.extra["grid_search_goals"] = len(undec)
-        res.extra["grid_queries"] = len(gridq)
-    if stage2:
-        pass
-        repl = {id(q1): q2 for q1, q2 in stage2}
-        done = [repl.get(id(qq), qq) for qq in done]
-        res.extra["stage2_queries"] = len(stage2)
-
     def replay(qq):
         cx = ctx_of.get(id(qq))
         if cx is None:
@@ -2657,6 +2722,227 @@ def c01(res, tier, seed):
                     dict(kind="oracle-overlap", state=stj, shape_kind=cx["skind"], result=o),
                     dict(clause="missed-overlap", shape=cx["shape"], beyond_searched_shells=max(abs(w.get("n", 0)), abs(w.get("m", 0))) > 3 or True))
         return ("spurious", "native score/oracle agree (no undetected overlap) for the model's cell and site")
+    _replay_memo = {}
+
+    def replay_m(qq):
+        """replay, once per query object"""
+        if id(qq) not in _replay_memo:
+            _replay_memo[id(qq)] = replay(qq)
+        return _replay_memo[id(qq)]
+
+    def theta_bb(goals, deadline):
+        """Orientation branch and bound.  Each goal's atoms are affine in (cos, sin) of the shape orientation.  The
+        circle of orientations is covered by intervals; on an interval every atom is weakened to 'holds for some
+        orientation of the interval' (polyq.relax_theta), which removes the orientation from the query.  unsat on
+        every interval of a cover = the goal is unsat for every orientation.  An interval that is not unsat is
+        halved; for a sat interval the exact query with the orientation pinned to its midpoint is asked too, and a
+        model of that one is a counterexample candidate (replayed like any other)."""
+        N0 = 64
+        maxdepth = 3 if tier == "quick" else 7
+        tmo = 30 if tier == "quick" else 180
+        front = {}
+        info = {}
+        for gq in goals:
+            front[id(gq)] = [(k_ * 2 * math.pi / N0, 2 * math.pi / N0, 0) for k_ in range(N0)]
+            info[id(gq)] = dict(goal=gq, closed=0, open=[], sat=None, queries=0, finest=2 * math.pi / N0, secs=0.0)
+        cache = {}
+        rounds = 0
+
+        def pinned(gq, thm):
+            cm_, sm_ = math.cos(thm), math.sin(thm)
+            pq_ = Query(gq.name + " [orientation = %.5f]" % thm, [], timeout=tmo, meta=gq.meta)
+            pq_.poly_text = polyq.script_of(polyq.pin_theta(gq.poly_skels, cm_, sm_))
+            pq_.poly_back = lambda m_, dxy=gq.poly_dxy, cm_=cm_, sm_=sm_: dict(polyq.Converter.model_back(m_, dxy), cth=cm_, sth=sm_)
+            return pq_
+        # phase A, counterexample search: the exact query with the orientation pinned to the midpoint of a base
+        # interval (cheap: no orientation variable left).  Coarse-to-fine over the orientations, nearest images first;
+        # a model is replayed at once and a reproduced violation ends the search (the verdict is settled).
+        pcache = {}
+        order = []
+        for gid, inf in info.items():
+            mt = inf["goal"].meta
+            ring = max(abs(mt.get("n", 0)), abs(mt.get("m", 0)))
+            for idx_, (th0, w, dep) in enumerate(front[gid]):
+                lvl = 0 if idx_ % 8 == 0 else 1 if idx_ % 8 == 4 else 2 if idx_ % 4 == 2 else 3
+                order.append((lvl, ring, mt.get("k", 0), gid, th0 + w / 2))
+        order.sort(key=lambda z_: z_[:3])
+        found = False
+        npinned = 0
+        dl_a = _time.time() + (deadline - _time.time()) * 0.6
+        pos = 0
+        while pos < len(order) and _time.time() < dl_a and not found:
+            batch = []
+            while pos < len(order) and len(batch) < 112:
+                lvl, ring, k__, gid, thm = order[pos]
+                pos += 1
+                if info[gid]["sat"] is not None:
+                    continue
+                pq_ = pinned(info[gid]["goal"], thm)
+                if pq_.poly_text in pcache:
+                    continue
+                pcache[pq_.poly_text] = pq_
+                batch.append((gid, pq_))
+            run_queries([pq_ for _, pq_ in batch], deadline=dl_a)
+            npinned += len(batch)
+            for gid, pq_ in batch:
+                info[gid]["secs"] += pq_.secs
+                if pq_.status == "sat" and info[gid]["sat"] is None:
+                    gq = info[gid]["goal"]
+                    pq_.rawq, pq_.term_names = gq.rawq, dict(gq.poly_conv.term_names)
+                    ctx_of[id(pq_)] = ctx_of.get(id(gq))
+                    out_ = replay_m(pq_)
+                    if out_ is not None and out_[0] == "violated":
+                        info[gid]["sat"] = pq_
+                        _replay_memo[id(gq)] = out_
+                        front[gid] = []
+                        found = True
+                    else:
+                        info[gid].setdefault("spurious", []).append(out_[1] if out_ else "no replay")
+        res.extra["orientation_pinned_queries"] = npinned
+        if found:
+            # settled: do not spend the remaining budget on proving the other goals of a violated tree
+            for gid in front:
+                if info[gid]["sat"] is None and front[gid]:
+                    info[gid]["open"] += [(th0, w, "not attempted: a violation was already reproduced") for (th0, w, dep) in front[gid]]
+                    front[gid] = []
+        while any(front.values()) and _time.time() < deadline:
+            rounds += 1
+            batch = []
+            for gid, ivs in front.items():
+                gq = info[gid]["goal"]
+                for (th0, w, dep) in ivs:
+                    sks = polyq.relax_theta(gq.poly_skels, math.cos(th0), math.sin(th0), w * (1 + 1e-6))
+                    text = polyq.script_of(sks)
+                    rq = cache.get(text)
+                    if rq is None:
+                        rq = Query(gq.name + " [orientation in %.4f+%.4f]" % (th0, w), [], timeout=tmo, meta=gq.meta)
+                        rq.poly_text = text
+                        cache[text] = rq
+                        batch.append(rq)
+                    info[gid].setdefault("pending", []).append((th0, w, dep, rq))
+            run_queries(batch, deadline=deadline)
+            pins = []
+            for gid in list(front):
+                inf = info[gid]
+                nxt = []
+                for (th0, w, dep, rq) in inf.pop("pending", []):
+                    inf["queries"] += 1
+                    inf["secs"] += rq.secs
+                    if rq.status == "unsat":
+                        inf["closed"] += 1
+                        inf["finest"] = min(inf["finest"], w)
+                        continue
+                    if rq.status == "sat" and inf["sat"] is None:
+                        if dep > 0:
+                            pins.append((gid, pinned(inf["goal"], th0 + w / 2)))
+                    if dep < maxdepth:
+                        nxt += [(th0, w / 2, dep + 1), (th0 + w / 2, w / 2, dep + 1)]
+                    else:
+                        inf["open"].append((th0, w, rq.status))
+                front[gid] = nxt
+            if pins:
+                run_queries([pq_ for _, pq_ in pins], deadline=deadline)
+                for gid, pq_ in pins:
+                    info[gid]["secs"] += pq_.secs
+                    if pq_.status == "sat" and info[gid]["sat"] is None:
+                        info[gid]["sat"] = pq_
+                        front[gid] = []
+        for gid, inf in info.items():
+            gq = inf["goal"]
+            gq.secs += inf["secs"]
+            left = len(front.get(gid, [])) + len(inf["open"])
+            gq.meta = dict(gq.meta, orientation_intervals=inf["queries"], intervals_unsat=inf["closed"], intervals_open=left, finest_interval=round(inf["finest"], 5))
+            if inf["sat"] is not None:
+                gq.status, gq.model = "sat", inf["sat"].model
+                gq.term_names = dict(gq.poly_conv.term_names)
+            elif left == 0:
+                gq.status = "unsat"
+                gq.meta = dict(gq.meta, decided_by="orientation branch and bound: %d intervals covering the circle, all unsat" % inf["closed"])
+            else:
+                gq.status, gq.raw = "unknown", "orientation branch and bound: %d of %d intervals not unsat at width %.4f (%s)" % (left, inf["queries"], inf["finest"], "budget" if front.get(gid) else "depth limit")
+            gq.bb_done = True
+        res.extra["orientation_bb_goals"] = len(goals)
+        res.extra["orientation_bb_queries"] = len(cache)
+        res.extra["orientation_bb_rounds"] = rounds
+
+    if stage2:
+        bb = []
+        for q1, q2 in stage2:
+            try:
+                if getattr(q2, "poly_skels", None) is not None:
+                    polyq.relax_theta(q2.poly_skels, 1.0, 0.0, 0.1)
+                    bb.append(q2)
+            except polyq.NotPoly as e_:
+                q2.meta = dict(q2.meta, no_orientation_bb=str(e_))
+            if os.environ.get("VERIF_C01_MATCH"):
+                print("stage2", q2.name[:70], "converted" if getattr(q2, "poly_skels", None) is not None else q2.meta.get("not_converted"), q2.meta.get("no_orientation_bb"))
+        if bb and not os.environ.get("VERIF_C01_NOBB"):
+            theta_bb(bb, _time.time() + (360 if tier == "quick" else 1200))
+            repl0 = {id(q1): q2 for q1, q2 in stage2 if getattr(q2, "bb_done", False)}
+            done = [repl0.get(id(qq), qq) for qq in done]
+            stage2 = [(q1, q2) for q1, q2 in stage2 if not getattr(q2, "bb_done", False)]
+    if stage2:
+        if os.environ.get("VERIF_C01_MATCH"):
+            for n_, (_, q2) in enumerate(stage2):
+                open(os.path.join(E.TARGET, "c01_dump_s2_%d.smt2" % n_), "w").write("; %s\n" % q2.name + q2.script()[0])
+        run_queries([q2 for _, q2 in stage2], deadline=deadline)
+        split_unknown([q2 for _, q2 in stage2], "split_round2")
+        repl0 = {id(q1): q2 for q1, q2 in stage2}
+        done = [repl0.get(id(qq), qq) for qq in done]
+        stage2 = []
+    # counterexample search for what is still undecided: the same exact query with (angle, ratio) fixed on a
+    # grid that hugs the guards' own thresholds (the remaining variables -- cell length, relative offset,
+    # orientation -- stay symbolic).  A sat cell is replayed; unsat cells prove nothing beyond the grid and the
+    # obligation stays undischarged.
+    import math as _m2
+    offs = [0.0, 0.1, 0.19, 0.21, 0.35, 0.45, 0.49, 0.51, 0.8, 1.04]
+    ratios = [1.0, 0.8, 0.6, 0.53, 0.51, 0.49, 0.4, 0.34, 0.32, 0.2, 0.1]
+    undec = [qq for qq in done if qq.status not in ("sat", "unsat") and getattr(qq, "rawq", None) is not None and not getattr(qq, "bb_done", False)][:40]
+    if any(v_ and v_[0] == "violated" for v_ in _replay_memo.values()):
+        undec = []   # a violation is already reproduced; no further counterexample search
+    gridq = []
+    thetas = [k_ * _m2.pi / 8 + 0.05 for k_ in range(4)]   # squares/triangles: orientation modulo the shape's symmetry
+    for qq in undec:
+        raw, fin = qq.rawq
+        qq.grid = []
+        is_poly = "square" in qq.name or "triangle" in qq.name
+        for off in offs:
+            ang = _m2.pi / 2 - off
+            cv, sv = _m2.cos(ang), _m2.sin(ang)
+            for rv_ in ratios:
+                for thv in (thetas if is_poly else [None]):
+                    pin = [T.fcmp("fle", cv - 1e-12, c_), T.fcmp("fle", c_, cv + 1e-12), T.fcmp("fle", sv - 1e-12, s_), T.fcmp("fle", s_, sv + 1e-12), T.fcmp("feq", q, rv_)]
+                    if thv is not None:
+                        ct, st_ = _m2.cos(thv), _m2.sin(thv)
+                        pin += [T.fcmp("fle", ct - 1e-12, cth), T.fcmp("fle", cth, ct + 1e-12), T.fcmp("fle", st_ - 1e-12, sth), T.fcmp("fle", sth, st_ + 1e-12)]
+                    gq = Query(qq.name + " [grid angle=pi/2-%g ratio=%g%s]" % (off, rv_, "" if thv is None else " theta=%.3f" % thv), fin(raw + pin, i_=qq.meta.get("i"), j_=qq.meta.get("j")), timeout=10, meta=qq.meta)
+                    gq.get_terms = [c_, s_, cth, sth]
+                    gq.rawq = (raw + pin, fin)
+                    P(gq, getattr(qq, "poly_conv", None))
+                    qq.grid.append(gq)
+                    gridq.append(gq)
+    if gridq:
+        # interleave the goals so that a short budget still touches every goal
+        import random as _rnd
+        _rnd.Random(seed).shuffle(gridq)
+        run_queries(gridq, deadline=deadline + (180 if tier == "quick" else 600))
+        for qq in undec:
+            hits = [gq for gq in qq.grid if gq.status == "sat"]
+            qq.secs += sum(gq.secs for gq in qq.grid)
+            if hits:
+                qq.status, qq.model = "sat", hits[0].model
+                qq.term_names = getattr(hits[0], "term_names", {})
+                qq.rawq = hits[0].rawq
+            else:
+                qq.meta = dict(qq.meta, grid_cells_unsat=sum(1 for gq in qq.grid if gq.status == "unsat"), grid_cells=len(qq.grid))
+        res.extra["grid_search_goals"] = len(undec)
+        res.extra["grid_queries"] = len(gridq)
+    if stage2:
+        pass
+        repl = {id(q1): q2 for q1, q2 in stage2}
+        done = [repl.get(id(qq), qq) for qq in done]
+        res.extra["stage2_queries"] = len(stage2)
+
     # the atom translations the change of variables relied on, each discharged as an equivalence over the old variables
     keys = set()
     for cv_ in convs:
@@ -2677,7 +2963,7 @@ def c01(res, tier, seed):
     for qq in done:
         cx = ctx_of.get(id(qq))
         if cx is None or qq.status != "unsat":
-            record(res, qq, replay)
+            record(res, qq, replay_m)
         else:
             key = (cx["group"], cx["shape"])
             agg.setdefault(key, []).append(qq)
@@ -2688,7 +2974,7 @@ def c01(res, tier, seed):
     res.extra["image_obligations_unsat"] = sum(len(v) for v in agg.values())
     res.functions = used_fns(exo)
     res.stubs = summaries_used()
-    res.bounds = ["groups %s x shapes %s; every cell in the optimiser's bounds (length [0.01,50], ratio [0.1,1], angle [pi/6,pi/2]) and site in [-1/2,1/2]^2 with any orientation; image window |n|,|m|<=%d plus a real-offset obligation for everything beyond" % (glist, [s[0] for s in shapes], 4 if tier == "quick" else 6),
+    res.bounds = ["groups %s x shapes %s; every cell in the optimiser's bounds (length [0.01,50], ratio [0.1,1], angle [pi/6,pi/2]) and site in [-1/2,1/2]^2 with any orientation; image window |n|,|m|<=%d plus a real-offset obligation for everything beyond" % (glist, [s[0] for s in shapes], 4 if tier == "quick" else 5),
                   "the size-based shell count ceil(2R/spacing) is followed for values 0..%d (cells whose lattice-line spacing is at least 2R/%d); flatter cells are outside the claim" % (Kmax, Kmax)]
     res.assumptions = ["R-mode; wrap replaced by u = P - n, n in -2..2, -1/2 <= u < 1/2 (C15)", "hypotheses: the code's own overlap-search formula with the tests adjacent to the goal image (and the nearest self-images) instantiated by the real intersects code; all other tests left free (sound for unsat)",
                        "true overlap: discs by centre distance, convex polygons by the separating-axis condition with margin 1e-9", "the angle's cosine is linked to the angle at the guards' thresholds by monotonicity of cos on [pi/6, pi/2]"]
@@ -2886,7 +3172,7 @@ def py_parse_component(comp):
     return (cx, cy, k)
 
 
-PROPS = {"C12": c12, "C13": c13, "C14": c14, "C15": c15, "C16": c16, "C04": c04, "C10": c10, "C03": c03, "C02": c02, "C08": c08, "C09": c09, "C01": c01, "C17": c17}
+PROPS = {"C12": c12, "C13": c13, "C14": c14, "C15": c15, "C16": c16, "C04": c04, "C10": c10, "C03": c03, "C02": c02, "C08": c08, "C09": c09, "C01": c01_entry, "C17": c17}
 
 
 
